@@ -616,16 +616,23 @@ def share_rules(ctx: Context, rep, module_name: str,
     second property. Discharged obligations are copied as such."""
     import importlib
     from sa.report import Report
+    # a module that is itself being run for somebody's share does not pull
+    # in further shares (no cycles; shares of shares are not claimed)
+    if ctx.__dict__.get("_share_depth", 0) > 0:
+        return
     cache = ctx.__dict__.setdefault("_shared_reports", {})
     sub = cache.get(module_name)
     if sub is None:
         mod = importlib.import_module(f"sa.rules.{module_name}")
         sub = Report(module_name.upper(), "selftest")
+        ctx.__dict__["_share_depth"] = ctx.__dict__.get("_share_depth", 0) + 1
         try:
             mod.run(ctx, sub)
         except AnalysisError as e:
             sub.notes.append(f"analysis error: {e}")
             sub.__dict__["_error"] = str(e)
+        finally:
+            ctx.__dict__["_share_depth"] -= 1
         cache[module_name] = sub
     msgs = {(v.rule, v.loc, v.construct): v for v in sub.violations}
     for src, dst in mapping.items():
@@ -644,7 +651,9 @@ def share_rules(ctx: Context, rep, module_name: str,
                    f"obligation of {src}", path=v.path if v is not None else "")
         if n == 0:
             err = sub.__dict__.get("_error")
-            raise AnalysisError(
+            # fail closed, but only after this property's own rules had their
+            # say (report.run_rules raises it when no violation was found)
+            rep.__dict__.setdefault("_deferred_errors", []).append(
                 f"{dst}: shared rule {src} produced no obligation" +
                 (f" ({err})" if err else ""))
 
@@ -943,3 +952,66 @@ def check_no_shared_class_state(ctx: Context, rep, rule: str) -> None:
                        message="class-level mutable container mutated "
                        "through self: shared by every instance")
     rep.info(rule, f"{n} plain class(es) inspected")
+
+
+# ---------------------------------------------------------------------------
+def check_background_results(ctx: Context, rep, rule: str) -> None:
+    """Work handed to a background executor / task on the read path reports
+    its failure to the consumer: a Future's exception is only re-raised by
+    result() / iteration of executor.map in the consumer (inside an
+    add_done_callback it is merely logged), an asyncio task's exception only
+    by awaiting the task."""
+    rep.rule(
+        rule,
+        "in sedpack.io: no Future.add_done_callback; every "
+        "asyncio.create_task / ensure_future result is awaited (or gathered) "
+        "on a normal path of the function that created it - cancelling it in "
+        "a finally clause is not enough")
+    n = 0
+    for fn in ctx.repo.all_functions():
+        if not fn.module.name.startswith("sedpack.io") or isinstance(
+                fn.node, ast.Lambda):
+            continue
+        for c in fn.calls():
+            f = c.func
+            if isinstance(f, ast.Attribute) and f.attr == "add_done_callback":
+                n += 1
+                rep.ob(rule, False, loc=fn.loc(c), where=fn.qualname,
+                       construct=short(c, 60),
+                       message="a failure raised inside a done-callback is "
+                       "only logged by concurrent.futures: the consumer never "
+                       "sees it")
+            nm = (dotted(f) or "").rsplit(".", 1)[-1]
+            if nm in ("create_task", "ensure_future"):
+                n += 1
+                from sa.model import parent as _par
+                p = _par(c)
+                tgt = None
+                if isinstance(p, ast.Assign) and len(p.targets) == 1 and \
+                        isinstance(p.targets[0], ast.Name):
+                    tgt = p.targets[0].id
+                elif isinstance(p, ast.AnnAssign) and isinstance(
+                        p.target, ast.Name):
+                    tgt = p.target.id
+                awaited = isinstance(p, ast.Await)
+                if tgt is not None:
+                    for x in fn.body_nodes():
+                        if isinstance(x, ast.Await) and any(
+                                isinstance(y, ast.Name) and y.id == tgt
+                                for y in ast.walk(x.value)):
+                            # not only inside a finally / except block
+                            from sa.model import ancestors as _anc
+                            in_cleanup = any(
+                                isinstance(a, ast.Try) and (any(
+                                    x in ast.walk(s) for s in a.finalbody) or
+                                    any(x in ast.walk(s) for h in a.handlers
+                                        for s in h.body))
+                                for a in _anc(x))
+                            if not in_cleanup:
+                                awaited = True
+                rep.ob(rule, awaited, loc=fn.loc(c), where=fn.qualname,
+                       construct=short(c, 60),
+                       message="the background task is never awaited on the "
+                       "normal path: an exception raised in it is lost and "
+                       "the stream ends as if complete")
+    rep.info(rule, f"{n} background hand-over site(s) inspected")
